@@ -85,21 +85,22 @@ type Violation struct {
 }
 
 type Result struct {
-	Prop          string           `json:"property"`
-	Tier          string           `json:"tier"`
-	Seed          uint64           `json:"seed"`
-	Shard         int              `json:"shard"`
-	NShards       int              `json:"nshards"`
-	Counters      map[string]int64 `json:"counters"`
-	Distinct      []string         `json:"distinct"`
-	Samples       []any            `json:"samples"`
-	Violations    []Violation      `json:"violations"`
-	NViolations   int              `json:"n_violations"`
-	Inconclusive  []string         `json:"inconclusive"`
-	NInconclusive int              `json:"n_inconclusive"`
-	Notes         []string         `json:"notes,omitempty"`
-	WallS         float64          `json:"wall_s"`
-	Done          bool             `json:"done"`
+	Prop          string            `json:"property"`
+	Tier          string            `json:"tier"`
+	Seed          uint64            `json:"seed"`
+	Shard         int               `json:"shard"`
+	NShards       int               `json:"nshards"`
+	Counters      map[string]int64  `json:"counters"`
+	Distinct      []string          `json:"distinct"`
+	Samples       []any             `json:"samples"`
+	Violations    []Violation       `json:"violations"`
+	NViolations   int               `json:"n_violations"`
+	Inconclusive  []string          `json:"inconclusive"`
+	NInconclusive int               `json:"n_inconclusive"`
+	Notes         []string          `json:"notes,omitempty"`
+	Digests       map[string]string `json:"digests,omitempty"` // compared across processes by the runner
+	WallS         float64           `json:"wall_s"`
+	Done          bool              `json:"done"`
 
 	mu       sync.Mutex
 	distinct map[uint64]struct{}
@@ -175,6 +176,20 @@ func (r *Result) inconclusive(why string) {
 	if len(r.Inconclusive) < 20 {
 		r.Inconclusive = append(r.Inconclusive, why)
 	}
+}
+
+// digest records a value that must be identical in every process that computes it.
+func (r *Result) digest(key, val string) {
+	r.mu.Lock()
+	defer r.mu.Unlock()
+	if r.Digests == nil {
+		r.Digests = map[string]string{}
+	}
+	if old, ok := r.Digests[key]; ok && old != val {
+		r.Digests[key] = old + "|" + val // in-process disagreement is kept visible
+		return
+	}
+	r.Digests[key] = val
 }
 
 func (r *Result) note(format string, a ...any) {
